@@ -138,7 +138,7 @@ def run(ck, ix, tier):
         par = getattr(t, "_parent", None)
         which = norm(par.test) if isinstance(par, ast.If) else "?"
         it = "dst" if which == "src_offset_unit" else "src"
-        ck.check(f"for u in {it}" in norm(t.test), "G-DOM", f"nonmult_convert|delta-guard-looks-at-other-side|{which}", fi.loc(t), f"inside `if {which}` the other side ({it}) is searched for delta units",
+        ck.check(f" in {it}" in norm(_sh6.expand(ix, fi, t.test)) or norm(t.test).endswith(f"({it})"), "G-DOM", f"nonmult_convert|delta-guard-looks-at-other-side|{which}", fi.loc(t), f"inside `if {which}` the other side ({it}) is searched for delta units",
                  f"`{norm(t.test)}` inside `if {which}` does not inspect `{it}`")
 
     # _validate_and_extract
